@@ -65,8 +65,20 @@ def gen_cases(tier, seed, gen, effort):
 
 def build(p):
     from sigma.processing.pipeline import ProcessingPipeline
+    # every marker item is gated by a pipeline state that an item of its OWN pipeline sets just before: after any composition the
+    # gate must still see the state of the pipeline that runs (named conditions + expression for odd markers, list form for even)
+    ts = []
+    for k in p["items"]:
+        ts.append({"id": f"s{k}", "type": "set_state", "key": f"k{k}", "val": "on"})
+        it = {"id": f"i{k}", "type": "field_name_suffix", "suffix": f"_{k}"}
+        cond = {"type": "processing_state", "key": f"k{k}", "val": "on"}
+        if k % 2:
+            it["rule_conditions"] = {"st": cond}; it["rule_cond_expr"] = "st"
+        else:
+            it["rule_conditions"] = [cond]
+        ts.append(it)
     d = {"name": p["name"], "priority": p["priority"], "vars": {k: v for k, v in p["vars"].items()},
-         "transformations": [{"id": f"i{k}", "type": "field_name_suffix", "suffix": f"_{k}"} for k in p["items"]],
+         "transformations": ts,
          "postprocessing": [{"id": f"q{k}", "type": "embed", "prefix": f"P{k}(", "suffix": ")"} for k in p["post"]],
          "finalizers": [{"type": "template", "template": f"F{k}<" + FT + ">"} for k in p["fins"]]}
     return ProcessingPipeline.from_dict(d)
@@ -87,7 +99,7 @@ def observe(backend_cls, pipeline, user=True, first_format=None):
     fins = [int(x) for x in re.findall(r"F(\d+)<", text)][::-1]
     lp = b.last_processing_pipeline
     return {"items": items, "post": post, "fins": fins, "vars": {k: v for k, v in lp.vars.items() if k in ("v", "w")},
-            "applied": sorted(lp.applied_ids), "text": text}
+            "applied": sorted(x for x in lp.applied_ids if not x.startswith("s")), "text": text}
 
 
 def spec_of(case, i):
